@@ -398,6 +398,8 @@ def simplify(stmts, nonnull):
         elif isinstance(st, ast.Assign) and len(st.targets) == 1 and isinstance(st.targets[0], ast.Name) and isinstance(st.value, ast.Name) and st.value.id == st.targets[0].id:
             continue            # x = x  (left behind when a spliced helper's parameter and the caller's local share a name)
         out.append(st)
+        if isinstance(st, (ast.Continue, ast.Break, ast.Return, ast.Raise)):
+            break               # statements after an unconditional exit never run (left behind when a tail was copied into an exiting arm)
     # a, b = x, y  ->  a = x; b = y   (no target is read by any of the values)
     split = []
     for st in out:
